@@ -262,7 +262,7 @@ def hex_to_dts(value: HexStr12) -> str | None:
         return None
     _seqx = int(value, 16)
     return dt(
-        year=(_seqx & 0b1111111 << 24) >> 24,
+        year=((_seqx & 0b1111111 << 24) >> 24) + 2000,  # so that year 00 is valid
         month=(_seqx & 0b1111 << 36) >> 36,
         day=(_seqx & 0b11111 << 31) >> 31,
         hour=(_seqx & 0b11111 << 19) >> 19,
